@@ -28,6 +28,27 @@ partial def pSetMatcher : P SetMatcher
     (pMany pMember ';' cs []).map fun (ms, r) => (SetMatcher.mk false ms, r)
   | _ => none
 
+/-- a matcher tree built with `NewSetMatcher`: `W` = `MatchAnySet()`, `N<T|F>(<matcher><tree>)*;` =
+`NewSetMatcher(wildcard, members...)` (the members in argument order: `SetMatcher.new` sorts them) -/
+partial def pSetMatcherN : P SetMatcher
+  | 'W' :: cs => some (SetMatcher.any, cs)
+  | 'N' :: cs =>
+    match pFlag cs with
+    | some (w, r) =>
+      let pMember : P (PEMatcher × SetMatcher) := fun cs =>
+        match cs with
+        | '(' :: r =>
+          match pMatcher r with
+          | some (pm, r1) =>
+            match pSetMatcherN r1 with
+            | some (child, ')' :: r2) => some ((pm, child), r2)
+            | _ => none
+          | none => none
+        | _ => none
+      (pMany pMember ';' r []).map fun (ms, r') => (SetMatcher.new w ms, r')
+    | none => none
+  | _ => none
+
 /-- a prefix pattern `p<matcher>*;` (the argument list of `PrefixMatcher`) -/
 def pPrefixPattern : P (List PEMatcher)
   | 'p' :: cs => pMany pMatcher ';' cs []
@@ -39,6 +60,8 @@ def pIgnore : P (Option Filter)
   | 'i' :: cs =>
     (pMany pPrefixPattern ';' cs []).map fun (pats, r) =>
       (some (.include (SetMatcher.mergeAll (pats.map SetMatcher.ofPrefix))), r)
+  | 't' :: cs =>
+    (pMany pSetMatcherN ';' cs []).map fun (ms, r) => (some (.include (SetMatcher.mergeAll ms)), r)
   | _ => none
 
 /-- an ignore configuration given per API version: `@[<version>*]<cfg>` restricts `<cfg>` to the listed
